@@ -30,6 +30,12 @@ def run(ctx, spec):
             st = streams.build(rng, cands, k=1, n_each=tuple(spec['len']), tagged=rng.random() < 0.3,
                                opts={'dead_mention': rng.choice([0.15, 0.5]), 'equal_times': rng.choice([0.2, 0.6]),
                                      'big_gaps': rng.choice([0.1, 0.4]), 'tie_prefix': rng.choice([0, 0, 0, 6, 15, 40])})
+        api = i % 4 == 3 and i != spec['n']
+        if api:
+            # two connections one after the other under one connection id (GDB mode: an address used again)
+            st = streams.build(rng, cands, k=2, n_each=(30, 200), tagged=True, interleave='first',
+                               opts={'dead_mention': rng.choice([0.15, 0.5]), 'equal_times': rng.choice([0.2, 0.6]), 'big_gaps': 0.1})
+            ctx.count('histories_with_reused_connection_id')
         entries = st['entries']
         online = []
 
@@ -40,7 +46,7 @@ def run(ctx, spec):
             conns = sess.cm.connections()
             if not conns:
                 return
-            c = conns[0]
+            c = conns[-1] if entries[i - 1]['ci'] else conns[0]
             got = sorted([ob.id, ob.generation] for lst in c.db.values() for ob in lst if ob.alive)
             want = entries[i - 1]['rec']['gt']['alive']
             if got != want:
@@ -49,7 +55,7 @@ def run(ctx, spec):
         # run with the hook
         from ..session import Session
         import types
-        s, probs = run_with_hook(ctx, st, before_read)
+        s, probs = run_with_hook(ctx, st, before_read, api)
         ctx.ev(len(entries))
         ctx.count('alive_set_comparisons', len(entries))
         if online:
@@ -57,7 +63,7 @@ def run(ctx, spec):
             probs.append(('C03', 'alive-after-message', 'after line %d (%r) alive only in tool %r, only in model %r' % (
                 idx, entries[idx]['line'][:120], only_tool, only_model), idx))
         sim = st['sims'][0]
-        for a, b in sim.stats.items():
+        for a, b in (sim.stats.items() if not api else []):
             if a == 'max_depth':
                 ctx.counters['max_incarnation_depth'] = max(ctx.counters.get('max_incarnation_depth', 0), b)
             else:
@@ -65,7 +71,7 @@ def run(ctx, spec):
         ctx.count('histories')
         if sim.stats['delete_ids'] > 0:
             ctx.sig(c02.runner_hash(st))
-        objcheck.report(ctx, st, probs)
+        objcheck.report(ctx, st, probs, {'api_reuse': [e['ci'] for e in entries]} if api else None)
         if len(ctx.samples) < 2:
             d = [e['line'] for e in entries if e['rec']['gt']['destroyed']][:2]
             ctx.sample({'delete_id_lines': d, 'messages': len(entries), 'sim_stats': sim.stats})
@@ -75,7 +81,9 @@ def run(ctx, spec):
         ctx.count('contract_' + k, v)
 
 
-def run_with_hook(ctx, st, before_read):
+def run_with_hook(ctx, st, before_read, api=False):
+    if api:
+        return objcheck.run_stream(ctx, st, want=WANT, api_reuse=True, before_read=before_read)
     """objcheck.run_stream with a before_read hook on the scripted input"""
     from .. import session
     orig = session.Session.feed
